@@ -61,6 +61,7 @@ pub const BENDS: &[&str] = &[
     "lpc_order_32_small_block",
     "fixed_extreme",
     "stereo_extreme",
+    "side_doubling",
 ];
 
 /// a probe whose name is made at run time (interned, so each distinct name is allocated once)
@@ -292,6 +293,28 @@ fn apply_bend(name: &str, ch: &Choices, rng: &mut Xoshiro, spec: &mut FrameSpec,
                     SubSpec::Verbatim { samples: (0..n).map(|i| if i % 2 == 0 { v } else { -1 - v }).collect() }
                 };
             }
+        }
+        "side_doubling" => {
+            // legal grammar: the side channel of a decorrelated pair predicted by s[i] = 2 * s[i-1] from a
+            // warm-up at the bottom of its range — it doubles until it reaches the end of the i64 range
+            // (and wraps to 0): reconstruction arithmetic at its limit
+            if !(8..=10).contains(&spec.assignment) || n < 4 {
+                return false;
+            }
+            let k = match spec.assignment {
+                9 => 0,
+                _ => 1,
+            };
+            let s = &mut spec.subs[k];
+            s.wasted = 0;
+            let lo = -(1i64 << (s.bits - 1));
+            let m1 = rng.next() % 2 == 0;
+            s.body = SubSpec::Lpc { order: 1, warm_up: vec![lo], precision: 3, shift: 0, coefs: vec![2], method1: m1, parts: vec![PartSpec::Zero(n - 1)] };
+            // the other channel at either end of its range, or quiet
+            let o = &mut spec.subs[1 - k];
+            o.wasted = 0;
+            let (olo, ohi) = (-(1i64 << (o.bits - 1)), (1i64 << (o.bits - 1)) - 1);
+            o.body = SubSpec::Constant { sample: *ch.pick("bent.doubling.other", &[olo, ohi, 0, 1, -1]) };
         }
         "sample_bits_off" => {
             let s = &mut spec.subs[si];
